@@ -472,6 +472,31 @@ func prop(c Case) error {
 	if err := checkAll("new"); err != nil {
 		return err
 	}
+	// a receiver without a layout: every part of the case's (real) layout is a mismatch
+	if c.Kind != model.GeometryCollection {
+		for i, op := range c.Ops {
+			if op.Name != "push" || len(op.Parts) == 0 {
+				continue
+			}
+			p, err := buildPart(&op.Parts[0], i)
+			if err != nil {
+				return err
+			}
+			none := newRecv(c.Kind, geom.NoLayout, false)
+			perr := push(none, p)
+			var lm geom.ErrLayoutMismatch
+			if !errors.As(perr, &lm) || lm.Got != p.Layout() || lm.Want != geom.NoLayout {
+				return fmt.Errorf("Push of a %v part into a receiver without a layout returned %v, want ErrLayoutMismatch{Got: %v, Want: NoLayout}", p.Layout(), perr, p.Layout())
+			}
+			if err := model.WellFormed(none); err != nil {
+				return fmt.Errorf("receiver without a layout after the refused Push: %v", err)
+			}
+			if numParts(none) != 0 || none.Layout() != geom.NoLayout || none.Stride() != 0 {
+				return fmt.Errorf("receiver without a layout after the refused Push: %d parts, layout %v, stride %d", numParts(none), none.Layout(), none.Stride())
+			}
+			break
+		}
+	}
 	for i, op := range c.Ops {
 		step := fmt.Sprintf("step %d (%s)", i, op.Name)
 		o := objs[op.Target%len(objs)]
